@@ -167,8 +167,8 @@ def writeHandshake (data : Bytes) (maxPayload : Nat) : TxResult :=
         header typ body.length seq f.off f.len ++ f.body)
 
 /-- `writeHandshakeRecord` with its transcript argument: `transcript.Write(data)` runs on the
-marshalled, unfragmented `data` BEFORE the message is split (regenerated facts
-`txTranscriptArg`, `txTranscriptBeforeSplit`), so the first component is what the sender
+marshalled, unfragmented `data` BEFORE the message is split (proved of the translated source text:
+`Tie.TxFragment.src_eq`, `Props.C17.C17_src_tx_is_model`), so the first component is what the sender
 hashes, whatever the second component turns out to be. -/
 def writeHandshakeT (data : Bytes) (maxPayload : Nat) : Bytes × TxResult :=
   (data, writeHandshake data maxPayload)
